@@ -1,12 +1,13 @@
 """C13  Async caches behave like their reference cache for every call history.
 
 Histories of calls (every spelling of the same arguments: positional / keyword / default / keyword-only, plus a small
-malformed stream), bodies that block on a batch or raise, custom key functions, maxsize 1-4, several instances with
-instance drop, dirty() and ttl expiry on a scripted clock - run on the real alru_cache / acached_per_instance /
-alazy_constant.  The Lean model (AsynqModel.Lib.Cache: qcore's LRUCache, get_args_tuple and get_kwargs_defaults and the
-three wrappers, branch for branch, with the argument-name lists AS WRITTEN in tools.py) replays the same history
-(correspondence) and the Lean observers `Alru.spec`, `PerInst.spec`, `Lazy.spec` - a reference cache keyed on the
-call's normalised arguments - judge the implementation's observations on their own."""
+malformed stream), bodies that block on a batch or raise or return a value that refers to the instance, custom key
+functions, maxsize 1-4, several instances with instance drop, dirty() and ttl expiry on a scripted clock - run on the
+real alru_cache / acached_per_instance / alazy_constant.  The Lean model (AsynqModel.Lib.Cache: qcore's LRUCache,
+get_args_tuple and get_kwargs_defaults and the three wrappers, branch for branch, with the argument-name lists AS
+WRITTEN in tools.py, and the closure dict of acached_per_instance that holds the cached values strongly) replays the
+same history (correspondence) and the Lean observers `Alru.spec`, `PerInst.spec`, `Lazy.spec` - a reference cache
+keyed on the call's normalised arguments - judge the implementation's observations on their own."""
 import hashlib
 import itertools
 import json
@@ -15,6 +16,7 @@ import random
 PID = "C13"
 LEVEL = "proof"
 LEAN_MODULES = ["AsynqModel.Theorems.C13"]
+# the claimed theorems (audited with #print axioms by the proof gate); one line each in MANIFEST.json / DESIGN.md 5
 THEOREMS = [
     "AsynqModel.Cache.C13_key_normal",
     "AsynqModel.Cache.C13_key_injective",
@@ -22,17 +24,29 @@ THEOREMS = [
     "AsynqModel.Cache.C13_alru_refines",
     "AsynqModel.Cache.C13_alru_refines_keyfn",
     "AsynqModel.Cache.C13_alru_size_le_maxsize",
-    "AsynqModel.Cache.C13_alru_hit",
-    "AsynqModel.Cache.C13_alru_miss",
-    "AsynqModel.Cache.C13_alru_raise_not_stored",
+    "AsynqModel.Cache.C13_alru_kept_below_maxsize_keys",
     "AsynqModel.Cache.C13_alru_recently_used_kept",
-    "AsynqModel.Cache.C13_per_instance_refines",
+    "AsynqModel.Cache.C13_alru_evicted_after_maxsize_keys",
+    "AsynqModel.Cache.C13_per_instance_refines_partial",
+    "AsynqModel.Cache.C13_per_instance_leak_counterexample",
     "AsynqModel.Cache.C13_instances_independent",
-    "AsynqModel.Cache.C13_instance_drop",
     "AsynqModel.Cache.C13_lazy_refines",
     "AsynqModel.Cache.C13_lazy_dirty_once",
     "AsynqModel.Cache.C13_lazy_ttl_once",
     "AsynqModel.Cache.C13_lazy_raise_not_cached",
+    # every hypothesis of the refinement theorems is needed (witnesses on the model)
+    "AsynqModel.Cache.C13_alru_callOK_needed",
+    "AsynqModel.Cache.C13_per_instance_callOK_needed",
+    "AsynqModel.Cache.C13_alru_maxsize_pos_needed",
+    "AsynqModel.Cache.C13_lazy_clock_pos_needed",
+]
+# NOT claimed: they hold by unfolding one `step` of the model (they document the model; their content is the
+# correspondence check).  Compiled with LEAN_MODULES, not counted as property theorems.
+STEP_LEMMAS = [
+    "AsynqModel.Cache.C13_alru_hit",
+    "AsynqModel.Cache.C13_alru_miss",
+    "AsynqModel.Cache.C13_alru_raise_not_stored",
+    "AsynqModel.Cache.C13_instance_drop",
 ]
 BUILDS = {"quick": ["py"], "thorough": ["py", "cy"]}
 CASE_TIMEOUT = 20
@@ -40,11 +54,16 @@ RULE = ("three streams. alru: signature (0-3 positional-or-keyword parameters wi
         "parameters with/without default) x maxsize 1-4 x key function (default / const / sumParity / raw) x history of "
         "1-30 calls drawn from a pool of 2-5 bindings over values 0-3, each call spelled at random (how many positional, "
         "keywords in random order, defaults omitted or passed, 40% of default-key cases all-positional), 5% malformed "
-        "(missing required argument, unexpected keyword); plus an exhaustive core: every 3-call history over 7 "
-        "spellings of f(a, b=0) x maxsize 1-2. per-instance: the same over methods (self, ...) with 1-3 instances and "
-        "instance drops (del + gc.collect()). lazy: ttl 0/5/10 x scripted clock x call/dirty()/tick with bodies of "
-        "duration 0-7 on the clock. Every body either returns (stamp, received arguments) or raises, directly or after "
-        "blocking on a batch item; calls are made as f(..), f.asynq(..).value() or from inside an outer async function. "
+        "(missing required argument, unexpected keyword); 2% of the default-key and per-instance cases also contain "
+        "calls Python cannot bind because of too many positional arguments or a parameter passed twice: for those cases "
+        "only the correspondence is judged (ASSUMPTIONS); plus an exhaustive core: every 3-call history over 7 "
+        "spellings of f(a, b=0) x maxsize 1-2, every 5-call (thorough: 6-call) history over 3 keys x maxsize 1-3. "
+        "per-instance: the same over methods (self, ...) with 1-3 instances and instance drops (del + gc.collect()); in 6% "
+        "of the cases half of the bodies return a value that refers to the instance (plus every 3-operation history over "
+        "call-with-such-a-value / plain call / drop on two instances). lazy: ttl 0/5/10 x scripted clock x "
+        "call/dirty()/tick with bodies of duration 0-7 on the clock. Every body either returns (stamp, received "
+        "arguments[, instance]) or raises, directly or after blocking on a batch item; calls are made as f(..), "
+        "f.asynq(..).value() or from inside an outer async function. "
         "non-trivial = at least 3 calls with at least one reference hit and one reference miss; distinct by case hash")
 TRUSTED = [
     "hand-written Lean model AsynqModel.Lib.Cache tied to the code by this differential run only",
@@ -52,17 +71,27 @@ TRUSTED = [
     "arguments it actually received",
     "Python harness checks/c13.py (generated functions via exec, scripted clock patched into asynq.tools.utime, "
     "body run counter, batch used for blocking bodies)",
-    "qcore.caching.LRUCache/get_args_tuple/get_kwargs_defaults are modelled from their source, CPython dict/OrderedDict, "
-    "weakref callbacks + gc.collect() for 'vanish with their instance'",
+    "qcore.caching.LRUCache/get_args_tuple/get_kwargs_defaults are modelled from their source, CPython dict/OrderedDict; "
+    "'the program drops the instance' is `del` + gc.collect() in CPython: an object reachable from the decorator's "
+    "closure is not freed, one that only sits in a reference cycle is",
 ]
 ASSUMPTIONS = [
     "histories are sequences of top-level calls, each run to completion before the next starts (two calls with the same "
     "key in flight at once both miss - that is deduplicate's business, C12)",
     "wrapped functions have no *args/**kwargs; argument values are hashable and compared by ==",
-    "malformed calls covered: missing required argument, unexpected keyword. A call that passes too many positionals "
-    "or one parameter twice is outside the quantifier (get_args_tuple can map it onto the key of a valid call)",
-    "scripted clock starts >= 1 and never goes backwards (refresh_time == 0 is alazy_constant's 'never computed' mark)",
+    "calls Python cannot bind are covered when an argument is missing or a keyword is unexpected (TypeError, nothing "
+    "runs). A call that passes too many positionals or one parameter twice is OUTSIDE the property: it has no "
+    "normalised arguments, and qcore's get_args_tuple maps it onto the key of a valid call, so it is answered from the "
+    "cache when that call is cached and raises TypeError when it is not (reproduced on the real code; hypothesis "
+    "alruCallOK / perInstCallOK of the refinement theorems, needed: C13_alru_callOK_needed, "
+    "C13_per_instance_callOK_needed). Such calls are generated, but only the correspondence is judged on their cases",
+    "alru_cache(maxsize) with maxsize >= 1: qcore's LRUCache constructor rejects anything else (hypothesis hcap)",
+    "scripted clock starts >= 1 and never goes backwards (refresh_time == 0 is alazy_constant's 'never computed' mark; "
+    "needed: C13_lazy_clock_pos_needed)",
     "the number of per-instance entries is read from __acached_per_instance_cache__ (the attribute the library's own tests use)",
+    "a cached value may refer to its instance (this is where the property is FALSE of acached_per_instance as it is: "
+    "C13_per_instance_leak_counterexample); other routes by which a value could keep an instance alive (a value that "
+    "refers to ANOTHER instance of the class, instances without __dict__) are not generated",
 ]
 
 NAMES = {"a": 1, "b": 2, "c": 3, "k": 4, "m": 5, "q": 6, "self": 9}   # numeric order = alphabetical order
@@ -143,10 +172,42 @@ def malform(rng, sig, args, kw):
     return args, kw + [["q", rng.randint(0, 1)]]
 
 
-def gen_call(rng, sig, pool, inst=0, allpos=False, malformed_rate=0.05, lazy=False):
+def unbindable(rng, sig, args, kw):
+    """a call Python cannot bind that get_args_tuple accepts: too many positional arguments / one parameter twice.
+    OUTSIDE the property (ASSUMPTIONS); returns None when the signature offers no such call"""
+    params = sig_params(sig)
+    names_pos = [n for n, d, ko in params if not ko]
+    kwonly = [n for n, d, ko in params if ko]
+    if args and rng.random() < 0.5:
+        # one parameter twice: a positional one repeated as a keyword
+        n = names_pos[rng.randrange(len(args))]
+        return args, [x for x in kw if x[0] != n] + [[n, rng.randint(0, 1)]]
+    if kwonly:
+        # too many positionals: the keyword-only parameters passed positionally
+        vals = dict((k, v) for k, v in kw)
+        allv = []
+        for (n, d, ko) in params:
+            if len(allv) < len(args):
+                allv.append(args[len(allv)])
+            elif n in vals:
+                allv.append(vals[n])
+            elif d is not None:
+                allv.append(d)
+            else:
+                return None
+        return allv, []
+    if args:
+        n = names_pos[rng.randrange(len(args))]
+        return args, [x for x in kw if x[0] != n] + [[n, rng.randint(0, 1)]]
+    return None
+
+
+def gen_call(rng, sig, pool, inst=0, allpos=False, malformed_rate=0.05, lazy=False, unbindable_rate=0.0, selfref_rate=0.0):
     op = {"op": "call", "inst": inst, "args": [], "kw": [], "raises": 1 if rng.random() < 0.15 else 0, "dur": 0,
           "blocks": 1 if rng.random() < 0.35 else 0, "rpos": rng.randint(0, 1),
           "via": rng.choice(["sync", "sync", "asynq", "inner"])}
+    if selfref_rate and rng.random() < selfref_rate:
+        op["selfref"] = 1
     if lazy:
         op["dur"] = rng.choice([0, 0, 1, 3, 7])
         return op
@@ -154,6 +215,10 @@ def gen_call(rng, sig, pool, inst=0, allpos=False, malformed_rate=0.05, lazy=Fal
     args, kw = spell(rng, sig, b, allpos)
     if rng.random() < malformed_rate:
         args, kw = malform(rng, sig, args, kw)
+    elif unbindable_rate and rng.random() < unbindable_rate:
+        u = unbindable(rng, sig, args, kw)
+        if u is not None:
+            args, kw = u
     op["args"], op["kw"] = args, kw
     return op
 
@@ -169,7 +234,9 @@ def gen_alru(rng, size=None):
             sig["defaults"] = []
     pool = [gen_binding(rng, sig) for _ in range(rng.randint(2, 5))]
     n = size if size is not None else rng.choice([2, 3, 4, 6, 8, 12, 20, 30])
-    ops = [gen_call(rng, sig, pool, allpos=allpos, malformed_rate=0.0 if allpos else 0.05) for _ in range(n)]
+    ub = 0.25 if keyspec == "default" and not allpos and rng.random() < 0.02 else 0.0
+    ops = [gen_call(rng, sig, pool, allpos=allpos, malformed_rate=0.0 if allpos else 0.05, unbindable_rate=ub)
+           for _ in range(n)]
     return {"cache": "alru", "maxsize": rng.choice([1, 2, 2, 3, 4]), "keyspec": keyspec, "sig": sig, "ops": ops}
 
 
@@ -179,12 +246,14 @@ def gen_perinst(rng, size=None):
     ninst = rng.randint(1, 3)
     n = size if size is not None else rng.choice([2, 3, 4, 6, 8, 12, 20, 30])
     ops = []
+    ub = 0.25 if rng.random() < 0.02 else 0.0
+    sr = 0.5 if rng.random() < 0.06 else 0.0      # bodies whose value refers to the instance
     for _ in range(n):
         i = rng.randrange(ninst)
         if rng.random() < 0.12:
             ops.append({"op": "drop", "inst": i})
         else:
-            ops.append(gen_call(rng, sig, pool, inst=i))
+            ops.append(gen_call(rng, sig, pool, inst=i, unbindable_rate=ub, selfref_rate=sr))
     return {"cache": "perinst", "sig": sig, "ops": ops}
 
 
@@ -246,6 +315,13 @@ def exhaustive_core(tier):
     msig = {"args": ["self", "a", "b"], "defaults": [0], "kwonly": [], "kwd": []}
     for h in itertools.product(spellings[:6], repeat=3):
         cases.append({"cache": "perinst", "sig": msig, "ops": [_call(a, k, inst=i % 2) for i, (a, k) in enumerate(h)]})
+    # values that refer to their instance: every 3-operation history over two instances
+    sops = [_call([0], [], inst=0, selfref=1), _call([0], [], inst=0), _call([1], [], inst=1, selfref=1),
+            {"op": "drop", "inst": 0}, {"op": "drop", "inst": 1}]
+    for h in itertools.product(sops, repeat=3):
+        if not any(o.get("selfref") for o in h) or not any(o["op"] == "drop" for o in h):
+            continue
+        cases.append({"cache": "perinst", "sig": msig, "ops": [dict(o) for o in h]})
     lops = [{"op": "dirty"}, {"op": "tick", "d": 5}, {"op": "tick", "d": 6}, _call([], []), _call([], [], raises=1),
             _call([], [], dur=3, blocks=1)]
     for ttl in (0, 5):
@@ -303,13 +379,13 @@ def neighbours(case, rng):
 
 
 def signature(case, v):
-    """what fails: cache / key function / violated clause.  Observations that are exactly those of a correct LRU cache
-    over alru_cache's default key AS WRITTEN (the driver appends `+aswritten-key`) are one defect with two faces:
-    a value computed for other arguments comes back (wrong-value), or an equal call is not recognised (false-miss)."""
+    """what fails: cache / key function / violated clause.  The driver appends `+cached-value-refers-to-instance` when
+    the clause is `instances`, a body of the case returns a value that refers to its instance and the observations are
+    exactly those of the model of the code as it is (the closure dict keeps such an instance and its entry alive):
+    one defect, one signature, and every other way of getting the number of entries wrong keeps its own."""
     spec = v["spec"]
-    if spec.endswith("+aswritten-key"):
-        face = "false-miss" if spec.startswith("fail:hit-ran-body") else "wrong-value"
-        return "alru/default-key-drops-first-parameter-name/%s" % face
+    if spec == "fail:instances+cached-value-refers-to-instance":
+        return "perinst/cached-value-referring-to-its-instance-is-never-released"
     return "%s/%s/%s" % (case["cache"], case.get("keyspec", "-"), spec)
 
 
@@ -345,8 +421,8 @@ def _body_source(sig):
         for n in sig["kwonly"]:
             params.append("%s=%d" % (n, kwd[n]) if n in kwd else n)
     received = [a for a in args if a != "self"] + list(sig["kwonly"])
-    return "def body(%s):\n    return (yield from _impl((%s)))\n" % (
-        ", ".join(params), "".join(r + ", " for r in received))
+    return "def body(%s):\n    return (yield from _impl((%s)%s))\n" % (
+        ", ".join(params), "".join(r + ", " for r in received), ", self" if "self" in args else "")
 
 
 _FROZEN = [False]
@@ -370,6 +446,7 @@ def run_case(case):
     script = [None]
     clock = [case.get("t0", 1)]
     produced = {}
+    produced_selfref = {}
     state = {}
 
     class Batch(BatchBase):
@@ -391,7 +468,7 @@ def run_case(case):
             BatchItemBase.__init__(self, state["batch"])
             self.x = x
 
-    def _impl(received):
+    def _impl(received, owner=None):
         runs[0] += 1
         stamp = runs[0]
         s = script[0]
@@ -404,6 +481,12 @@ def run_case(case):
                 raise RuntimeError("batch item delivered %r" % (x,))
         if s["raises"]:
             raise UserErr(stamp)
+        if s.get("selfref") and owner is not None:
+            # a value that refers to the instance it was computed for; the harness must not keep it (or the instance)
+            # alive itself: it remembers the content, not the object
+            v = ("v", stamp, tuple(received), owner)
+            produced_selfref[id(v)] = (stamp, tuple(received), id(owner))
+            return v
         v = ("v", stamp, tuple(received))
         produced[id(v)] = v
         return v
@@ -457,6 +540,9 @@ def run_case(case):
         got = produced.get(id(v))
         if got is v:
             return "(ok %d (%s))" % (v[1], " ".join(str(x) for x in v[2]))
+        got = produced_selfref.get(id(v))
+        if got is not None and type(v) is tuple and len(v) == 4 and got == (v[1], v[2], id(v[3])):
+            return "(ok %d (%s))" % (v[1], " ".join(str(x) for x in v[2]))
         return "(ok %d ())" % UNKNOWN
 
     def invoke(target, args, kw, via):
@@ -506,14 +592,17 @@ def run_case(case):
                     misses += 1
                 elif res.startswith("(ok"):
                     hits += 1
-                wop = "(call %d (%s) (%s) %d %d)" % (
+                wop = "(call %d (%s) (%s) %d %d %d)" % (
                     op["inst"], " ".join(str(x) for x in op["args"]),
-                    " ".join("(%d %d)" % (NAMES[k], v) for k, v in op["kw"]), 1 if op["raises"] else 0, op.get("dur", 0))
+                    " ".join("(%d %d)" % (NAMES[k], v) for k, v in op["kw"]), 1 if op["raises"] else 0, op.get("dur", 0),
+                    1 if (op.get("selfref") and kind == "perinst") else 0)
                 feats.append("via=" + op["via"])
                 if op["blocks"]:
                     feats.append("blocking-body")
                 if op["raises"]:
                     feats.append("raising-body")
+                if op.get("selfref") and kind == "perinst":
+                    feats.append("value-refers-to-instance")
                 if op["kw"]:
                     feats.append("spelling=keyword")
                 if op["args"]:
@@ -524,6 +613,11 @@ def run_case(case):
                         feats.append("spelling=default-omitted")
                     if any(k in case["sig"]["kwonly"] for k, _ in op["kw"]):
                         feats.append("spelling=keyword-only")
+                    names_pos = [a for a in case["sig"]["args"] if a != "self"]
+                    if len(op["args"]) > len(names_pos) or any(k in names_pos[:len(op["args"])] for k, _ in op["kw"]):
+                        feats.append("unbindable-call(too-many-positionals/duplicate: correspondence only)")
+                        if res.startswith("(ok"):
+                            feats.append("unbindable-call-answered-from-cache")
                 if res == "(raisedType)":
                     feats.append("malformed-call(TypeError)")
             elif name == "drop":
